@@ -1,7 +1,8 @@
 (** C05 Expiry decision. *)
 From Coq Require Import List NArith ZArith Arith Bool.
 Import ListNotations.
-From Chiri Require Import Base.Bytes Base.Res Model.TagParser Model.Chrono Model.Markers Proofs.C05Proofs.
+From Chiri Require Import Base.Bytes Base.Res Model.TagParser Model.Chrono Model.Markers Spec.CivilTime
+     Proofs.C05Proofs Proofs.ChronoProofs.
 Local Open Scope Z_scope.
 
 (** Ready exactly when the first `to` attribute has a value which, followed by a space and the
@@ -39,6 +40,91 @@ Theorem C05_monotone_in_time :
     now cfg <= now2 -> status cfg el = Some true -> status (with_now cfg now2) el = Some true.
 Proof. exact status_monotone. Qed.
 Print Assumptions C05_monotone_in_time.
+
+(** A well-formed wall-clock time "YYYY-MM-DD HH:MM:SS" at a well-formed offset ("+HH:MM" or
+    "+HHMM", either sign) parses to the instant it denotes ... *)
+Theorem C05_rendered_time_parses_to_its_instant :
+  forall y m d h mi s negative colon oh om,
+    valid_civil y m d h mi s -> valid_offset oh om ->
+    parse_datetime (render_to y m d h mi s ++ [SP] ++ render_offset negative colon oh om)
+    = Some (instant y m d h mi s negative oh om).
+Proof. exact parse_rendered. Qed.
+Print Assumptions C05_rendered_time_parses_to_its_instant.
+
+(** ... hence the element is ready exactly when the current instant is at or after it. *)
+Theorem C05_decision_is_instant_comparison :
+  forall y m d h mi s negative colon oh om now name,
+    valid_civil y m d h mi s -> valid_offset oh om ->
+    time_is_removal (render_offset negative colon oh om) now
+                    (mkElement name [(S_TO, Some (render_to y m d h mi s))])
+    = (instant y m d h mi s negative oh om <=? now).
+Proof. exact rendered_decision. Qed.
+Print Assumptions C05_decision_is_instant_comparison.
+
+(** The civil-time function is the calendar: 1970-01-01 is day 0 and the next calendar day
+    (month lengths and the Gregorian leap rule included) is one more; these two facts determine it. *)
+Theorem C05_epoch : days_from_civil 1970 1 1 = 0.
+Proof. exact days_from_civil_epoch. Qed.
+Print Assumptions C05_epoch.
+
+Theorem C05_next_day :
+  forall y m d, 1 <= m <= 12 -> 1 <= d <= days_in_month y m ->
+    let '(y', m', d') := next_day y m d in days_from_civil y' m' d' = days_from_civil y m d + 1.
+Proof. exact days_from_civil_next_day. Qed.
+Print Assumptions C05_next_day.
+
+(** Malformed classes never parse, whatever the remaining fields are. *)
+Theorem C05_malformed_date_separators :
+  forall y m d h mi s off sep,
+    valid_civil y m d h mi s -> (sep = 47%N \/ sep = 46%N) ->
+    parse_datetime (render4 y ++ [sep] ++ render2 m ++ [sep] ++ render2 d ++ [SP] ++ render2 h ++ [58%N]
+                    ++ render2 mi ++ [58%N] ++ render2 s ++ [SP] ++ off) = None.
+Proof. exact malformed_separators. Qed.
+Print Assumptions C05_malformed_date_separators.
+
+Theorem C05_malformed_T_separator :
+  forall y m d h mi s off,
+    valid_civil y m d h mi s ->
+    parse_datetime (render4 y ++ [45%N] ++ render2 m ++ [45%N] ++ render2 d ++ [84%N] ++ render2 h ++ [58%N]
+                    ++ render2 mi ++ [58%N] ++ render2 s ++ [SP] ++ off) = None.
+Proof. exact malformed_T_separator. Qed.
+Print Assumptions C05_malformed_T_separator.
+
+Theorem C05_malformed_missing_time :
+  forall y m d negative colon oh om,
+    0 <= y <= 9999 -> 1 <= m <= 12 -> 1 <= d <= 31 -> valid_offset oh om ->
+    parse_datetime (render4 y ++ [45%N] ++ render2 m ++ [45%N] ++ render2 d ++ [SP]
+                    ++ render_offset negative colon oh om) = None.
+Proof. exact malformed_missing_time. Qed.
+Print Assumptions C05_malformed_missing_time.
+
+(** month 0/13.., day 0 or beyond the month (29 Feb in non-leap years included), hour 24..,
+    minute 60.., second 61.. (a second of 60 is chrono's leap-second representation and is accepted). *)
+Theorem C05_malformed_out_of_range :
+  forall y m d h mi s negative colon oh om,
+    0 <= y <= 9999 -> 0 <= m <= 99 -> 0 <= d <= 99 -> 0 <= h <= 99 -> 0 <= mi <= 99 -> 0 <= s <= 99 ->
+    valid_offset oh om ->
+    ~ (1 <= m <= 12 /\ 1 <= d <= days_in_month y m /\ h <= 23 /\ mi <= 59 /\ s <= 60) ->
+    parse_datetime (render_to y m d h mi s ++ [SP] ++ render_offset negative colon oh om) = None.
+Proof. exact malformed_out_of_range. Qed.
+Print Assumptions C05_malformed_out_of_range.
+
+(** A zone (or anything that does not begin with a whitespace character) after the time never parses. *)
+Theorem C05_malformed_trailing_zone :
+  forall y m d h mi s negative colon oh om zone,
+    valid_civil y m d h mi s -> valid_offset oh om -> zone <> [] -> ws_len zone = 0%nat ->
+    parse_datetime (render_to y m d h mi s ++ zone ++ [SP] ++ render_offset negative colon oh om) = None.
+Proof. exact malformed_trailing_zone. Qed.
+Print Assumptions C05_malformed_trailing_zone.
+
+(** Offsets "", "UTC", "+9", "0900", "+24:00", "+09:60" never parse. *)
+Theorem C05_malformed_offsets :
+  forall y m d h mi s off,
+    valid_civil y m d h mi s ->
+    In off [ []; [85;84;67]%N; [43;57]%N; [48;57;48;48]%N; [43;50;52;58;48;48]%N; [43;48;57;58;54;48]%N ] ->
+    parse_datetime (render_to y m d h mi s ++ [SP] ++ off) = None.
+Proof. exact malformed_offsets. Qed.
+Print Assumptions C05_malformed_offsets.
 
 (** Non-vacuity / boundary: to="2001-09-09 01:46:40" at +00:00 is the instant 1000000000;
     ready at that instant, not ready one second earlier; at +09:00 the same wall-clock reading
